@@ -469,6 +469,11 @@ class Sim:
                 s.inbox.append(data)
                 self.env.want_read.add(s)
             self.settle()
+        elif op == "anon":
+            # a connection whose peer the node cannot resolve (state outside what the node itself produces)
+            c = self.conns[int(t[1])]
+            c.node_name = ""
+            c.host_identity = "ghost.x"
         elif op == "rxcut":
             s = self.sock(int(t[1]))
             b1, b2 = build_msg(t[3]), build_msg(t[4])
